@@ -368,7 +368,7 @@ func (c *FnCtx) loopHead(b *ssa.BasicBlock, li *loopInfo, ins []loopEdge) {
 			}
 			env := c.loopEnv(b, subst, e.heap)
 			for k, inv := range spec.Invariants {
-				c.checkClause(fmt.Sprintf("loop%d.init:%d", li.ord, k+1), "invariant holds on entry: "+inv.Text, e.cond, env, inv)
+				c.checkClause(fmt.Sprintf("loop%d.init:%d%s", li.ord, k+1, entrySuffix(ins, e.p)), "invariant holds on entry: "+inv.Text, e.cond, env, inv)
 			}
 		}
 	}
@@ -449,8 +449,16 @@ func (c *FnCtx) backEdge(p, head *ssa.BasicBlock, cond string, st *blockState) {
 	save := c.ghost
 	c.ghost = st.ghost
 	env := c.loopEnv(head, subst, st.heap)
+	edge := ""
+	if len(li.latch) > 1 {
+		for n, l := range li.latch {
+			if l == p {
+				edge = fmt.Sprintf("@edge%d", n+1)
+			}
+		}
+	}
 	for k, inv := range spec.Invariants {
-		c.checkClause(fmt.Sprintf("loop%d.preserve:%d", li.ord, k+1), "invariant preserved: "+inv.Text, cond, env, inv)
+		c.checkClause(fmt.Sprintf("loop%d.preserve:%d%s", li.ord, k+1, edge), "invariant preserved: "+inv.Text, cond, env, inv)
 	}
 	if spec.Decreases != nil {
 		d := env.mat(env.tr(spec.Decreases.E))
@@ -459,7 +467,7 @@ func (c *FnCtx) backEdge(p, head *ssa.BasicBlock, cond string, st *blockState) {
 		if c.mode == ModeBV {
 			lt, ge = "(bvslt "+d.T+" "+old.T+")", "(bvsge "+old.T+" (_ bv0 64))"
 		}
-		c.checkG(fmt.Sprintf("loop%d.decreases", li.ord), "variant decreases and is bounded: "+spec.Decreases.Text, cond, and(lt, ge))
+		c.checkG(fmt.Sprintf("loop%d.decreases%s", li.ord, edge), "variant decreases and is bounded: "+spec.Decreases.Text, cond, and(lt, ge))
 	}
 	c.ghost = save
 }
@@ -606,4 +614,16 @@ func debugName(d *ssa.DebugRef) string {
 		return e.Name()
 	}
 	return exprIdentName(d)
+}
+
+func entrySuffix(ins []loopEdge, p *ssa.BasicBlock) string {
+	if len(ins) <= 1 {
+		return ""
+	}
+	for n, e := range ins {
+		if e.p == p {
+			return fmt.Sprintf("@entry%d", n+1)
+		}
+	}
+	return ""
 }
